@@ -42,6 +42,12 @@ Lemma sprint_forrange ind vd vinit vstep vlen vidx ei es el body hasie ie : spri
     ++ (sp_ind ind1 ++ [CText t_rbrace] ++ [CText t_nl])
     ++ (if hasie then (sp_ind ind ++ [CText t_else_block] ++ [CText t_nl]) ++ bprint (S ind) ie ++ (sp_ind ind ++ [CText t_rbrace] ++ [CText t_nl]) else []).
 Proof. reflexivity. Qed.
+Lemma sprint_css ind buf e sfx : sprint ind (JSCss buf e sfx)
+  = (match e with
+     | Some x => [CText (indent_text ind); CName buf; CText t_pluseq] ++ jprint x ++ [CText t_css_tail; CText t_nl]
+     | None => []
+     end) ++ [CText (indent_text ind); CName buf; CText t_pluseq; CStrLit 39 sfx; CText t_semi_nl].
+Proof. reflexivity. Qed.
 Lemma bprint_cons ind s r : bprint ind (JBCons s r) = sprint ind s ++ bprint ind r. Proof. reflexivity. Qed.
 Lemma lprint_else ind b : lprint ind (JLElse b) = [CText t_else; CText t_brace_nl] ++ bprint (S ind) b ++ sp_ind ind ++ [CText t_rbrace].
 Proof. reflexivity. Qed.
@@ -483,6 +489,27 @@ Proof.
         gbind y10 Y10. apply (gres_pop y9 i bf a _ sc n1 Y9).
         apply gres_ret; exact Y10.
       * chunks_eq.
+  - (* css *) intros e sfx lv f st j sc' n' i bf a sc n Hf Hn Hlv Hwf Hs Eg. rewrite sgen_css in Eg. inversion Eg; subst. clear Eg.
+    rewrite sdepth_css in Hf. destruct f as [|F]; [lia|]. rewrite snode_css, sprint_css.
+    eapply gres_walk; [reflexivity|exact Hs|]. intros st1 H1. cbn [jwalk_node].
+    assert (Hraw : forall x0, shape x0 i bf a sc' n' ->
+              gres (write_raw_text sfx) x0 [CText (indent_text i); CName bf; CText t_pluseq; CStrLit 39 sfx; CText t_semi_nl] i bf a sc' n').
+    { intros x0 Hx0. unfold write_raw_text. eapply gres_eq.
+      - gbind x Hx. apply gres_indent; exact Hx0.
+        unfold bufname. unfold gres. erewrite jbind_ok; [|erewrite jbind_ok; [reflexivity|reflexivity]].
+        replace (j_buf x) with bf by (symmetry; apply Hx). apply gres_emit. exact Hx.
+      - reflexivity. }
+    destruct e as [x|]; cbn [swf] in Hwf.
+    + eapply gres_bind; [|intros y Hy; apply Hraw; exact Hy].
+      eapply gres_eq.
+      * gbind x1 Hx1. apply gres_indent; exact H1.
+        unfold bufname. eapply gres_step; [erewrite jbind_ok; [reflexivity|reflexivity]|reflexivity|].
+        replace (j_buf x1) with bf by (symmetry; apply Hx1).
+        gbind x2 Hx2. apply gres_emit; exact Hx1.
+        gbind x3 Hx3. apply (gres_expr x lv F x2); [lia|exact Hwf|exact Hlv|exact Hx2].
+        apply gres_emit; exact Hx3.
+      * unfold sp_ind. chunks_eq.
+    + eapply gres_eq; [eapply gres_bind; [apply gres_ret; exact H1|intros y Hy; apply Hraw; exact Hy]|reflexivity].
   - (* BNil *) intros lv f st jb n' i bf a sc n Hf Hn Hlv Hwf Hs Eg. rewrite bgen_nil in Eg. inversion Eg; subst.
     exists sc. split; [reflexivity|]. apply gres_ret; exact Hs.
   - (* BCons *) intros s IHs r IHr lv f st jb n' i bf a sc n Hf Hn Hlv Hwf Hs Eg. rewrite bgen_cons in Eg. rewrite bdepth_cons in Hf.
